@@ -14,7 +14,7 @@ pub fn prop() -> Prop {
     Prop {
         id: "C19",
         level: "exploration",
-        rule: "triangles: complete enumeration of all vertex triples on a 5x5 grid (quick) / 7x7 grid (thorough) straddling the axes, including colinear and coincident vertices, plus proptest tapes with vertices to +-40; polylines: tapes with 0..=6 vertices, repeated vertices and reversals, with and without translate. Oracle: exact i64 orientation tests (every lattice point inside or on the boundary of the mathematical triangle is covered; every covered point is inside or within 1 px Euclidean distance of an edge segment), identical point sets for all 6 vertex orders, two triangles sharing an edge (fourth vertex on the other side) leave no lattice point of the union uncovered and both contain the Bresenham line of the shared edge (end points sorted by (y,x)); a 1-px outline (any alignment) equals the union of the three edge lines where each edge may be rasterised in either direction; polyline points() as a sequence equals the concatenated segment lines with the first point of each following segment dropped, and the 1-px styled polyline equals the union. Non-trivial: triangle with area != 0 and no axis-parallel edge; polyline with >= 3 vertices and a repeated vertex or reversal.",
+        rule: "triangles: complete enumeration of all vertex triples on a 5x5 grid (quick) / 7x7 grid (thorough) straddling the axes, including colinear and coincident vertices, plus proptest tapes with vertices to +-40; polylines: tapes with 0..=6 vertices, repeated vertices and reversals, with and without translate. Oracle: exact i64 orientation tests (every lattice point inside or on the boundary of the mathematical triangle is covered; every covered point is inside or within 1 px Euclidean distance of an edge segment), identical point sets for all 6 vertex orders, two triangles sharing an edge (fourth vertex on the other side) leave no lattice point of the union uncovered and both contain the Bresenham line of the shared edge (end points sorted by (y,x)); a 1-px outline (any alignment) equals the union of the three edge lines where each edge may be rasterised in either direction, is unchanged by adding a fill of another colour, and covers the same set when the fill has the stroke's colour; polyline points() as a sequence equals the concatenated segment lines with the first point of each following segment dropped, and the 1-px styled polyline equals the union. Non-trivial: triangle with area != 0 and no axis-parallel edge; polyline with >= 3 vertices and a repeated vertex or reversal.",
         assumptions: vec![
             "each outline edge may be rasterised in either direction (the statement does not fix one)",
             "Line::points() is the segment rasterisation (pinned by C17)",
@@ -102,6 +102,20 @@ fn check_triangle(a: Point, b: Point, c: Point, d: Option<Point>) -> Res {
                 format!("1-px outline ({:?}) is not the union of the three edge lines in any direction; pixels on no edge line: {:?}; outline has {} pixels", align, extra, outl.len()),
             );
         }
+        // the outline does not depend on the fill or on the colours: with a fill of another colour the
+        // stroke-coloured pixels are the same outline, and with a fill of the stroke's colour the
+        // covered set is the same as with two colours
+        let both = PrimitiveStyleBuilder::from(&style).fill_color(Rgb888::nth(1)).build();
+        let px: Vec<_> = t.into_styled(both).pixels().collect();
+        let stroke_px: S = set(px.iter().filter(|p| p.1 == Rgb888::nth(2)).map(|p| p.0));
+        let all_px: S = set(px.iter().map(|p| p.0));
+        ensure!(stroke_px == outl, "triangle:outline_changes_with_fill", "1-px outline ({:?}) with a fill of another colour differs from the outline without fill: {:?}", align, stroke_px.symmetric_difference(&outl).map(|k| pt(*k)).collect::<Vec<_>>());
+        let same = PrimitiveStyleBuilder::from(&style).fill_color(Rgb888::nth(2)).build();
+        let mut tgt = NativeT::<Rgb888>::new();
+        tgt.0.log = false;
+        t.into_styled(same).draw(&mut tgt).map_err(|e| Fail { sig: "triangle:draw_error".into(), detail: format!("{:?}", e) })?;
+        let same_px: S = tgt.0.map.keys().map(|&(x, y)| (y, x)).collect();
+        ensure!(same_px == all_px, "triangle:coverage_depends_on_colours", "1-px outline ({:?}) plus fill covers different pixels when stroke and fill have the same colour: {:?}", align, same_px.symmetric_difference(&all_px).map(|k| pt(*k)).collect::<Vec<_>>());
     }
     // two triangles sharing the edge a-b
     if let Some(d) = d {
